@@ -509,7 +509,7 @@ Definition elab_assert (st : dstate) (a : assertion) : outcome dstate :=
     let finish (vars : list string) :=
       Ok {| d_name := d_name st1; d_mods := d_mods st1; d_vars := vars; d_types := d_types st1; d_io := d_io st1;
             d_consts := d_consts st1; d_topics := d_topics st1;
-            d_free := if smem h rd then d_free st1 else sdel h (d_free st1);
+            d_free := d_free st1;       (* whether the written variable stays an input is decided when every assertion is known: finalize_free *)
             d_subs := (id, d) :: d_subs st1; d_reads := (id, rd) :: d_reads st1;
             d_out := Some (h, t); d_asts := (d_asts st1 ++ [d])%list |} in
     match assoc (d_types st1) h with
@@ -550,7 +550,24 @@ Definition with_name (st : dstate) (nm : option string) : dstate :=
 Definition elab_file_from (st0 : dstate) (f : file) : outcome dstate :=
   bind (elab_imports (with_name st0 (f_name f)) (f_imports f)) (fun st1 =>
   bind (elab_items st1 (f_items f)) (fun st2 => elab_asserts st2 (f_asserts f))).
-Definition elab_file (f : file) : outcome dstate := elab_file_from dstate0 f.
+(* the end of visitSpecification: a variable that receives the result of an assertion (in the order of the text) is not an input,
+   unless some assertion of the specification reads it (another field of the same object, or itself) and it is a declared variable;
+   d_reads holds one entry per assertion, the last one first *)
+Definition finalize_free (st : dstate) : dstate :=
+  let written := rev (map (fun p => fst (head_tail (fst p))) (d_reads st)) in
+  let fr := fold_left (fun fr h =>
+                         if existsb (fun p => smem h (snd p)) (d_reads st)
+                         then (if kmem h (d_types st) then sadd h fr else fr)
+                         else sdel h fr) written (d_free st) in
+  {| d_name := d_name st; d_mods := d_mods st; d_vars := d_vars st; d_types := d_types st; d_io := d_io st;
+     d_consts := d_consts st; d_topics := d_topics st; d_free := fr; d_subs := d_subs st;
+     d_reads := d_reads st; d_out := d_out st; d_asts := d_asts st |}.
+Definition elab_file (f : file) : outcome dstate :=
+  match elab_file_from dstate0 f with
+  | Ok st => Ok (finalize_free st)
+  | Rtamt => Rtamt
+  | Crash => Crash
+  end.
 
 (* parse(): ok + tables and ASTs | RTAMTException (lexer, syntax or ambiguity error, visitor check) | other exception *)
 Definition file_outcome (stl : bool) (text : string) : outcome dstate :=
